@@ -962,7 +962,8 @@ def programs(variant, tier, eol):
         return
     if spec["family"] == "gtf":
         # the GTF reader is not lazy: every program goes through parse + format; a reduced enumeration is enough
-        yield from gen_select(0)
+        for ops in chains(NA, 2, lambda d, m: full_ops(m) if (d == 0 or tier == "thorough") else core_ops(m)[:4]):
+            yield "select", chain_expr(A_, ops)
         pool = small_pool()
         for a, b in itertools.product(pool, pool):
             yield "concat", ["cat", [a, b]]
@@ -973,11 +974,20 @@ def programs(variant, tier, eol):
                 yield "select-then-replace", ["rep", ["idx", A_, NEG], fs]
                 yield "replace-then-select", ["idx", ["rep", A_, fs], REV]
         return
+    if tier == "quick" and variant == "vcf":
+        # same extractor code as vcf2 / vcf_noinfo (only the classes derived from the ##INFO lines differ), but every
+        # read costs ~10 ms: selections to depth 2 over the core operations and the replacements only
+        for ops in chains(NA, 2, lambda d, m: full_ops(m) if d == 0 else core_ops(m)[:4]):
+            yield "select", chain_expr(A_, ops)
+            if len(ops) == 2:
+                yield "select-materialised", chain_expr(A_, ops, mat=True)
+        yield "concat", ["cat", [["idx", A_, NEG], B_, ["idx", A_, S(1, None)]]]
+        yield from gen_replace(spec, 0, 0)
+        return
     yield from gen_select(level)
     if eol == "lf":
         yield from gen_access(spec, level)
-    if not (tier == "quick" and variant == "vcf"):     # same extractor code as vcf2 / vcf_noinfo, but every read costs ~10 ms
-        yield from gen_concat(level)
+    yield from gen_concat(level)
     yield from gen_replace(spec, level, 0 if tier == "quick" else None)
     if eol == "lf" or tier == "thorough":
         yield from gen_isolation(spec, level)
